@@ -311,7 +311,9 @@ def run(ctx):
     cases, nplain, nbound = gen(ctx)
     ctx.log('driver built; %d lists (%d plain small-universe, %d boundary)' % (len(cases), nplain, nbound))
     lines = ['ip %d %s %s' % (len(c['toks']), ' '.join(c['toks']), ' '.join(atext(p) for p in c['probes'])) for c in cases]
-    outs = A.run_lines(exe, lines, timeout=1800)
+    keep, outs = A.run_checked(ctx, exe, lines, timeout=1800)
+    cases = [cases[i] for i in keep]
+    lines = [lines[i] for i in keep]
     tcases = []
     for c, o in zip(cases, outs):
         if [A.txt(t) for t in o['vals']] != c['toks'] or len(o['seen']) != len(c['probes']):
